@@ -182,3 +182,52 @@ def check_messages(res: CheckResult, tier: str, rng: random.Random) -> None:
     res.samples.append({"case": cases[len(cases) // 3], "expected": expected.get(cases[len(cases) // 3]["mid"])})
     res.add_unit("message assembly: argument kinds x sizes around the a_repr limits x keyword orders x hash seeds",
                  cases=len(cases), seeds=seeds, lines_compared=nlines)
+
+
+def check_multiline_keys(res: CheckResult) -> None:
+    """Canonical order with expression texts that span lines (one text a prefix of another that continues on the
+    next line): the lines must be ordered by expression TEXT, not by the finished line."""
+    import linecache
+    from icv import callcheck
+    ic = callcheck.load_icontract()
+    variants = [
+        ("lambda x: (ident(x)\n        .bit_length()) > 100", ["ident(x)", "ident(x)\n        .bit_length()", "x"]),
+        ("lambda x: (ident(x)\n        .bit_length()\n        .bit_length()) > 100",
+         ["ident(x)", "ident(x)\n        .bit_length()", "ident(x)\n        .bit_length()\n        .bit_length()", "x"]),
+        ("lambda x: (ident(x).real\n        .bit_length()) > 100", ["ident(x)", "ident(x).real", "ident(x).real\n        .bit_length()", "x"]),
+    ]
+    n = 0
+    for i, (cond, keys) in enumerate(variants):
+        src = "import icontract\n@icontract.require(\n    {})\ndef f(x):\n    return 1\n".format(cond)
+        fname = "<icv-msg-ml-{}>".format(i)
+        linecache.cache[fname] = (len(src), None, src.splitlines(True), fname)
+        ns = {"ident": (lambda v: v)}
+        exec(compile(src, fname, "exec"), ns)
+        for xv in (5, 12):
+            n += 1
+            try:
+                ns["f"](xv)
+                msg = None
+            except ic.ViolationError as exc:
+                msg = str(exc)
+            values = {"x": xv, "ident(x)": xv, "ident(x).real": xv}
+            cur = xv
+            vals = {}
+            for k in keys:
+                if k == "x" or k == "ident(x)" or k == "ident(x).real":
+                    vals[k] = repr(xv)
+                else:
+                    depth = k.count(".bit_length()")
+                    v = xv
+                    for _ in range(depth):
+                        v = v.bit_length()
+                    vals[k] = repr(v)
+            want = "\n".join("{} was {}".format(k, vals[k]) for k in sorted(keys))
+            if msg is None or not msg.endswith(":\n" + want):
+                res.violation("msg.unsorted",
+                              "multi-line condition {!r} x={}: the value part of the message is not the lines sorted by "
+                              "expression text: {!r}".format(cond, xv, msg),
+                              {"signature": "msg.unsorted", "condition": cond, "x": xv, "message": msg, "want": want})
+        linecache.cache.pop(fname, None)
+    res.traces += n
+    res.add_unit("expression texts spanning several lines (prefix texts continued on the next line)", cases=n)
